@@ -214,7 +214,7 @@ func (g *Gen) tokDesc(kind, u string) Desc {
 	case r < 53:
 		return Desc{K: "mut", D: &exact, Op: "flip", N: g.rng.Intn(512)}
 	case r < 58:
-		return Desc{K: "mut", D: &exact, Op: "trunc", N: g.rng.Intn(64)}
+		return Desc{K: "mut", D: &exact, Op: pickS(g.rng, "trunc", "trunc", "prefix", "unpad"), N: g.rng.Intn(64)}
 	case r < 62:
 		return Desc{K: "mut", D: &exact, Op: "ext", N: g.rng.Intn(256)}
 	case r < 66:
@@ -1177,8 +1177,15 @@ func (g *Gen) scenarios() []intent {
 				out = append(out, g.loginStep(b, u, Desc{K: "pw", U: u}, false))
 			}
 			out = append(out, g.req(b, "POST", "OtpAdd", nil))
+			which := Desc{K: "otp", U: u}
+			if g.rng.Intn(2) == 0 {
+				// two one-time passwords, and the one used (and replayed below) is NOT the most recently added:
+				// the removal must take out exactly the one that was used
+				out = append(out, g.req(b, "POST", "OtpAdd", nil))
+				which.I = 1
+			}
 			b2 := g.browser()
-			use := g.req(b2, "POST", "OtpLogin", []KV{{g.pidField(), Desc{K: "pid", U: u}}, {"password", Desc{K: "otp", U: u}}})
+			use := g.req(b2, "POST", "OtpLogin", []KV{{g.pidField(), Desc{K: "pid", U: u}}, {"password", which}})
 			out = append(out, use)
 			usr := g.r.w.st.users[g.r.account(u).PID]
 			twofa := usr != nil && ((c.Totp && usr.TOTPSecretKey != "") || (c.Sms && usr.SMSPhoneNumber != ""))
@@ -1187,7 +1194,7 @@ func (g *Gen) scenarios() []intent {
 			}
 			if g.rng.Intn(2) == 0 || twofa {
 				b3 := g.browser()
-				out = append(out, g.req(b3, "POST", "OtpLogin", []KV{{g.pidField(), Desc{K: "pid", U: u}}, {"password", Desc{K: "otp", U: u}}}))
+				out = append(out, g.req(b3, "POST", "OtpLogin", []KV{{g.pidField(), Desc{K: "pid", U: u}}, {"password", which}}))
 				if twofa {
 					out = append(out, SymStep{Kind: "tick", D: 31}, g.validateStep(b3, u))
 				}
@@ -1456,7 +1463,17 @@ func (g *Gen) scenarios() []intent {
 				return e
 			}
 			out = append(out, SymStep{Kind: "req", Req: &SymReq{Browser: b, Method: "POST", Route: "EmailVerify", Arg: kind}},
-				end(lit(pickS(g.rng, "AAAAAAAAAAAAAAAAAAAAAA==", "stale-link", "x"))), end(Desc{K: "sessval", B: b, V: "twofactor_auth_token"}))
+				end(lit(pickS(g.rng, "AAAAAAAAAAAAAAAAAAAAAA==", "stale-link", "x"))))
+			// near misses of the token that IS outstanding: a prefix (one character, a few, all but one), a changed
+			// character, a longer text - none of them is the token
+			exactTok := Desc{K: "sessval", B: b, V: "twofactor_auth_token"}
+			for _, m := range []Desc{{K: "mut", D: &exactTok, Op: "prefix", N: 0}, {K: "mut", D: &exactTok, Op: "prefix", N: 1 + g.rng.Intn(20)},
+				{K: "mut", D: &exactTok, Op: "unpad"}, {K: "mut", D: &exactTok, Op: pickS(g.rng, "char", "tail", "upper", "stray"), N: g.rng.Intn(20)}} {
+				if g.rng.Intn(3) != 0 {
+					out = append(out, end(m))
+				}
+			}
+			out = append(out, end(exactTok))
 			enrol := func() []SymStep {
 				if kind == "totp" {
 					return []SymStep{g.req(b, "POST", "TotpSetup", nil), g.req(b, "POST", "TotpConfirm", []KV{{"code", Desc{K: "totpsess", B: b}}})}
